@@ -25,16 +25,25 @@ Record IdInv (s : state) : Prop := {
   id_sym : forall sym t, get sym (tokens s) = Some t -> t_symbol t = sym /\ get (t_minunit t) (minunits s) = Some sym;
   id_mu : forall mu sym, get mu (minunits s) = Some sym -> exists t, get sym (tokens s) = Some t /\ t_minunit t = mu }.
 
+(** a token's ERC20 contract stays, or (from none) becomes the next fresh contract id *)
+Definition contract_step (s s' : state) (c c' : Z) : Prop :=
+  (c' = c /\ next_contract s' = next_contract s)
+  \/ (c = 0 /\ c' = next_contract s /\ next_contract s' = next_contract s + 1).
+
 (** how one successful message may change the registry *)
 Inductive tok_step (m : msg) (s s' : state) : Prop :=
-| TSsame : tokens s' = tokens s -> minunits s' = minunits s -> tok_step m s s'
+| TSsame : tokens s' = tokens s -> minunits s' = minunits s -> next_contract s' = next_contract s -> tok_step m s s'
 | TSupd sym t t' :
     get sym (tokens s) = Some t -> tokens s' = set sym t' (tokens s) -> minunits s' = minunits s ->
-    same_identity t t' -> (same_gov t t' \/ authorised m t) -> tok_step m s s'
+    same_identity t t' -> (same_gov t t' \/ authorised m t) ->
+    contract_step s s' (t_contract t) (t_contract t') -> tok_step m s s'
 | TSnew t :
     get (t_symbol t) (tokens s) = None -> get (t_minunit t) (minunits s) = None ->
     tokens s' = set (t_symbol t) t (tokens s) -> minunits s' = set (t_minunit t) (t_symbol t) (minunits s) ->
-    tok_step m s s'.
+    contract_step s s' 0 (t_contract t) -> tok_step m s s'.
+
+Lemma bank_only_next s s' : bank_only s s' -> next_contract s' = next_contract s.
+Proof. intros (B & S & ->). reflexivity. Qed.
 
 Lemma upsert_fields s t :
   tokens (upsert_token s t) = set (t_symbol t) t (tokens s)
@@ -166,7 +175,7 @@ Qed.
 
 (** ** how each message changes the registry *)
 Lemma bank_only_tok_same m s s' : bank_only s s' -> tok_step m s s'.
-Proof. intros H. apply bank_only_fields in H. destruct H as (Ht & Hm & _). apply TSsame; assumption. Qed.
+Proof. intros H. pose proof (bank_only_next _ _ H). apply bank_only_fields in H. destruct H as (Ht & Hm & _). apply TSsame; assumption. Qed.
 
 Lemma do_deploy_tok m s auth nm sym minu scale s' : IdInv s ->
   do_deploy s auth nm sym minu scale = ROk s' -> tok_step m s s'.
@@ -184,12 +193,14 @@ Proof.
     + simpl. rewrite Hum. simpl. rewrite Hmu, Hsy. apply set_same_id. assumption.
     + repeat split.
     + left. repeat split.
+    + right. apply Bool.negb_false_iff, Z.eqb_eq in E0. split; [assumption|]. split; reflexivity.
   - destruct (has sym (tokens s)) eqn:Es; cbn [bind] in H; [discriminate|].
     inv_if H. inv_if H. inv_if H. inv_if H. inversion H.
     set (t' := mkToken sym minu scale 0 0 true MODULE (next_contract s) nm).
     destruct (upsert_fields s t') as (Hut & Hum & _).
     apply has_false in Eh. apply has_false in Es.
-    apply TSnew with (t := t'); simpl; assumption.
+    apply TSnew with (t := t'); simpl; try assumption.
+    right. repeat split.
 Qed.
 
 Lemma do_swapfee_only s sender receiver denom amt s' :
@@ -213,16 +224,20 @@ Proof.
     apply do_issue_inv in H. destruct H as (fd & famt & s1 & s3 & _ & _ & Hf & Hs & Hm & Hmint & Hpay).
     pose proof (fee_handler_effect _ _ _ _ _ Hf) as (Hbo & _).
     apply bank_only_fields in Hbo. destruct Hbo as (Ht1 & Hm1 & _).
+    pose proof (bank_only_next _ _ (bank_mint_only _ _ _ _ Hmint)) as Hn3.
+    pose proof (bank_only_next _ _ (bank_pay_only _ _ _ _ _ Hpay)) as Hn'.
+    pose proof (bank_only_next _ _ (proj1 (fee_handler_effect _ _ _ _ _ Hf))) as Hn1.
     apply bank_mint_only, bank_only_fields in Hmint. destruct Hmint as (Ht3 & Hm3 & _).
     apply bank_pay_only, bank_only_fields in Hpay. destruct Hpay as (Ht' & Hm' & _).
     set (t := mkToken sym minu scale initial (effective_max max initial mintable) mintable owner 0 nm) in *.
-    destruct (upsert_fields s1 t) as (Hut & Hum & _).
+    destruct (upsert_fields s1 t) as (Hut & Hum & _ & _ & _ & _ & _ & _ & Hun & _).
     apply TSnew with (t := t); simpl; try assumption.
     + rewrite Ht', Ht3, Hut, Ht1. reflexivity.
     + rewrite Hm', Hm3, Hum, Hm1. reflexivity.
+    + left. split; [reflexivity|]. rewrite Hn', Hn3, Hun, Hn1. reflexivity.
   - (* Edit *)
     apply do_edit_inv in H. destruct H as (t & Ht & Ho & _ & ->).
-    eapply TSupd with (sym := sym) (t := t); [eassumption|reflexivity|reflexivity|repeat split|].
+    eapply TSupd with (sym := sym) (t := t); [eassumption|reflexivity|reflexivity|repeat split| |left; split; reflexivity].
     right. simpl. split; [assumption|]. symmetry. apply (id_sym s I sym t Ht).
   - (* Mint *)
     apply do_mint_inv in H; [|assumption].
@@ -233,12 +248,14 @@ Proof.
     eapply bank_only_trans; [eapply bank_mint_only; eassumption|eapply bank_pay_only; eassumption].
   - (* Burn *)
     apply do_burn_inv in H. destruct H as (t & s1 & _ & Hs & Hb).
+    pose proof (bank_only_next _ _ (bank_send_only _ _ _ _ _ _ Hs)) as Hn1.
+    pose proof (bank_only_next _ _ (bank_burn_only _ _ _ _ Hb)) as Hn2. simpl in Hn2.
     apply bank_send_only, bank_only_fields in Hs. destruct Hs as (Ht1 & Hm1 & _).
     apply bank_burn_only, bank_only_fields in Hb. destruct Hb as (Ht2 & Hm2 & _). simpl in Ht2, Hm2.
     apply TSsame; congruence.
   - (* Transfer *)
     apply do_transfer_inv in H. destruct H as (t & _ & Ht & Ho & ->).
-    eapply TSupd with (sym := sym) (t := t); [eassumption|reflexivity|reflexivity|repeat split|].
+    eapply TSupd with (sym := sym) (t := t); [eassumption|reflexivity|reflexivity|repeat split| |left; split; reflexivity].
     right. simpl. split; [assumption|]. symmetry. apply (id_sym s I sym t Ht).
   - (* SwapFee *)
     apply bank_only_tok_same. eapply do_swapfee_only; eassumption.
@@ -247,12 +264,16 @@ Proof.
   - (* ToErc20 *)
     unfold do_to_erc20 in H. inv_if H. destruct (token_by_minunit s denom) as [t|]; [|discriminate].
     inv_if H. inv_bind H. inv_bind H. inv_if H. inversion H.
+    pose proof (bank_only_next _ _ (bank_send_only _ _ _ _ _ _ E1)) as Hn1.
+    pose proof (bank_only_next _ _ (bank_burn_only _ _ _ _ E2)) as Hn2.
     apply bank_send_only, bank_only_fields in E1. destruct E1 as (Ht1 & Hm1 & _).
     apply bank_burn_only, bank_only_fields in E2. destruct E2 as (Ht2 & Hm2 & _).
     apply TSsame; simpl; congruence.
   - (* FromErc20 *)
     unfold do_from_erc20 in H. inv_if H. destruct (token_by_minunit s denom) as [t|]; [|discriminate].
     inv_if H. inv_if H. inv_if H. cbv zeta in H. inv_bind H.
+    pose proof (bank_only_next _ _ (bank_mint_only _ _ _ _ E3)) as Hn1.
+    pose proof (bank_only_next _ _ (bank_pay_only _ _ _ _ _ H)) as Hn2.
     apply bank_mint_only, bank_only_fields in E3. destruct E3 as (Ht1 & Hm1 & _).
     apply bank_pay_only, bank_only_fields in H. destruct H as (Ht2 & Hm2 & _).
     apply TSsame; simpl in *; congruence.
@@ -265,7 +286,7 @@ Qed.
 (** ** the registry invariant is preserved by every message *)
 Lemma tok_step_IdInv m s s' : IdInv s -> tok_step m s s' -> IdInv s'.
 Proof.
-  intros I [Ht Hm | sym t t' Hg Ht Hm (Hsy & Hmu & _) _ | t Hs Hmn Ht Hm].
+  intros I [Ht Hm _ | sym t t' Hg Ht Hm (Hsy & Hmu & _) _ _ | t Hs Hmn Ht Hm _].
   - constructor; rewrite Ht, Hm; apply I.
   - destruct (id_sym s I sym t Hg) as [Hts Htm].
     constructor; rewrite Ht, Hm.
@@ -312,7 +333,7 @@ Proof.
   destruct (step_cases s m) as [(s' & E & ->)|[_ ->]]; [|assumption].
   assert (Hc : step_code s m = 0) by (unfold step_code; rewrite E; reflexivity).
   apply exec_inv in E. destruct E as [_ E].
-  destruct (handle_tok_step s m s' I E) as [Ht Hm | sym0 t0 t' Hg0 Ht Hm Hid Hgov | t0 Hs Hmn Ht Hm].
+  destruct (handle_tok_step s m s' I E) as [Ht Hm _ | sym0 t0 t' Hg0 Ht Hm Hid Hgov _ | t0 Hs Hmn Ht Hm _].
   - rewrite Ht. assumption.
   - rewrite Ht, get_set. destruct (eqb sym sym0) eqn:Es.
     + apply eqb_eq in Es. subst sym0. rewrite Hg in Hg0. inversion Hg0; subst t0.
@@ -340,7 +361,7 @@ Lemma step_minunit s m mu sym : IdInv s -> get mu (minunits s) = Some sym -> get
 Proof.
   intros I Hg. destruct (step_cases s m) as [(s' & E & ->)|[_ ->]]; [|assumption].
   apply exec_inv in E. destruct E as [_ E].
-  destruct (handle_tok_step s m s' I E) as [Ht Hm | sym0 t0 t' Hg0 Ht Hm Hid Hgov | t0 Hs Hmn Ht Hm]; rewrite Hm; try assumption.
+  destruct (handle_tok_step s m s' I E) as [Ht Hm _ | sym0 t0 t' Hg0 Ht Hm Hid Hgov _ | t0 Hs Hmn Ht Hm _]; rewrite Hm; try assumption.
   rewrite get_set_other; [assumption|]. intros Heq. subst mu. congruence.
 Qed.
 
@@ -797,3 +818,106 @@ Proof.
     + rewrite Hsup', Hsup2, Hsup1, eqb_refl.
       assert (Hz : eqb fd denom = false) by (apply eqb_false_iff; assumption). rewrite Hz. unfold ind. lia.
 Qed.
+
+(** ** ERC20 contract ids are handed out once: no two tokens share a contract *)
+Record CtrInv (s : state) : Prop := {
+  ctr_pos : 0 < next_contract s;
+  ctr_lt : forall sym t, get sym (tokens s) = Some t -> t_contract t < next_contract s;
+  ctr_inj : forall sym1 sym2 t1 t2, get sym1 (tokens s) = Some t1 -> get sym2 (tokens s) = Some t2 ->
+    t_contract t1 = t_contract t2 -> t_contract t1 <> 0 -> sym1 = sym2 }.
+
+Lemma ctr_update s s' sym t' : CtrInv s -> tokens s' = set sym t' (tokens s) ->
+  (((exists t, get sym (tokens s) = Some t /\ t_contract t' = t_contract t) \/ t_contract t' = 0)
+   /\ next_contract s' = next_contract s)
+  \/ (t_contract t' = next_contract s /\ next_contract s' = next_contract s + 1) ->
+  CtrInv s'.
+Proof.
+  intros [P L J] Ht Hc. constructor.
+  - destruct Hc as [[_ Hn]|[_ Hn]]; rewrite Hn; lia.
+  - intros sym0 t0. rewrite Ht, get_set. destruct (eqb sym0 sym) eqn:E.
+    + intros H0. inversion H0; subst t0.
+      destruct Hc as [[[(t & Hg & Hc)|Hz] Hn]|[Hc Hn]]; rewrite Hn.
+      * rewrite Hc. apply (L sym t Hg).
+      * lia.
+      * lia.
+    + intros H0. specialize (L _ _ H0). destruct Hc as [[_ Hn]|[_ Hn]]; rewrite Hn; lia.
+  - intros sym1 sym2 t1 t2. rewrite Ht, !get_set.
+    destruct (eqb sym1 sym) eqn:E1; destruct (eqb sym2 sym) eqn:E2.
+    + apply eqb_eq in E1. apply eqb_eq in E2. congruence.
+    + intros H1 H2 Heq Hnz. inversion H1; subst t1. exfalso.
+      destruct Hc as [[[(t & Hg & Hc)|Hz] Hn]|[Hc Hn]].
+      * apply eqb_neq in E2. apply E2. symmetry. apply (J sym sym2 t t2 Hg H2); congruence.
+      * congruence.
+      * specialize (L _ _ H2). lia.
+    + intros H1 H2 Heq Hnz. inversion H2; subst t2. exfalso.
+      destruct Hc as [[[(t & Hg & Hc)|Hz] Hn]|[Hc Hn]].
+      * apply eqb_neq in E1. apply E1. apply (J sym1 sym t1 t H1 Hg); congruence.
+      * congruence.
+      * specialize (L _ _ H1). lia.
+    + apply J.
+Qed.
+
+Lemma tok_step_CtrInv m s s' : CtrInv s -> tok_step m s s' -> CtrInv s'.
+Proof.
+  intros C [Ht Hm Hn | sym t t' Hg Ht Hm _ _ Hc | t Hs Hmn Ht Hm Hc].
+  - destruct C as [P L J]. constructor; rewrite ?Ht, ?Hn; assumption.
+  - apply (ctr_update s s' sym t' C Ht). destruct Hc as [[Hc Hn]|(Hz & Hc & Hn)].
+    + left. split; [left; exists t; split; assumption|assumption].
+    + right. split; assumption.
+  - apply (ctr_update s s' (t_symbol t) t C Ht). destruct Hc as [[Hc Hn]|(Hz & Hc & Hn)].
+    + left. split; [right; assumption|assumption].
+    + right. split; assumption.
+Qed.
+
+Lemma step_CtrInv s m : IdInv s -> CtrInv s -> CtrInv (step s m).
+Proof.
+  intros I C. destruct (step_cases s m) as [(s' & E & ->)|[_ ->]]; [|assumption].
+  apply exec_inv in E. destruct E as [_ E]. eapply tok_step_CtrInv; [eassumption|]. eapply handle_tok_step; eassumption.
+Qed.
+
+(** ** strangers cannot govern: over a history in which the token's owner signs no edit and no
+    transfer, the governed fields (maximum, mintable flag, owner, name) stay as they are *)
+Definition signs (a : acct) (m : msg) : Prop :=
+  match m with
+  | Edit owner _ _ _ _ => owner = a
+  | Transfer src _ _ => src = a
+  | _ => False
+  end.
+
+Lemma same_gov_trans a b c : same_gov a b -> same_gov b c -> same_gov a c.
+Proof. unfold same_gov. intuition congruence. Qed.
+
+Lemma authorised_signs m t : authorised m t -> signs (t_owner t) m.
+Proof. destruct m; simpl; tauto. Qed.
+
+Lemma run_strangers ms : forall s sym t, IdInv s -> get sym (tokens s) = Some t ->
+  Forall (fun m => ~ signs (t_owner t) m) ms ->
+  exists t', get sym (tokens (run s ms)) = Some t' /\ same_identity t t' /\ same_gov t t'.
+Proof.
+  induction ms as [|m ms IH]; intros s sym t I Hg Hf; simpl.
+  - exists t. split; [assumption|]. split; repeat split.
+  - inversion Hf as [|? ? Hm Hms]; subst.
+    destruct (step_token s m sym t I Hg) as (t1 & Hg1 & Hid1 & Hgov1).
+    assert (G1 : same_gov t t1).
+    { destruct Hgov1 as [G|[A _]]; [assumption|]. exfalso. apply Hm. apply authorised_signs. assumption. }
+    assert (Ho : t_owner t1 = t_owner t) by apply G1.
+    rewrite <- Ho in Hms.
+    destruct (IH (step s m) sym t1 (step_IdInv s m I) Hg1 Hms) as (t2 & Hg2 & Hid2 & G2).
+    exists t2. split; [assumption|]. split; [eapply same_identity_trans|eapply same_gov_trans]; eassumption.
+Qed.
+
+(** ** the comparison made by EditToken at the pinned commit (before the [fix:]): the circulating
+    amount was first rounded down to whole units *)
+Definition edit_max_ok_v0 (max scale issued : Z) : bool := negb (max <? Z.quot issued (pow10 scale)).
+
+Lemma edit_max_v0_accepts_below_circulation :
+  exists max scale issued, 0 < max /\ 0 <= scale <= 18 /\
+    edit_max_ok_v0 max scale issued = true /\ max * pow10 scale < issued.
+Proof. exists 10, 6, 10500000. repeat split; try lia; vm_compute; reflexivity. Qed.
+
+Lemma edit_max_ok_sound max scale issued : edit_max_ok max scale issued = true <-> issued <= max * pow10 scale.
+Proof. unfold edit_max_ok. rewrite Bool.negb_true_iff, Z.ltb_ge. reflexivity. Qed.
+
+(** outcome codes along a history (for the examples) *)
+Fixpoint codes (s : state) (ms : list msg) : list Z :=
+  match ms with [] => [] | m :: r => step_code s m :: codes (step s m) r end.
